@@ -259,6 +259,21 @@ def one_case(sh, fa, rng, case, tier):
             sh.violation("prefix-accepted", "a %d-byte proper prefix of a %d-byte encoding (cut %s) returned %s" % (off, L, cls, printable(got, 200)),
                          dict(info0, cut=off, bytes=data[:off][-60:].hex()))
             return
+    # the skipped field is the LAST thing in the encoding: nothing after it can reveal a short read
+    wp = {"type": "record", "name": WRAP, "fields": [{"name": "keep", "type": "long"}, {"name": "post", "type": js}]}
+    rp = {"type": "record", "name": WRAP, "fields": [{"name": "keep", "type": "long"}]}
+    blob = b"\x04" + data
+    st, got = guard(read_skip, fa, wp, rp, blob)
+    if st == "exc" or got != {"keep": 2}:
+        sh.violation("skip-rejected", "skipping a trailing field raised/misread: %s" % (exc_name(got) if st == "exc" else printable(got, 100)), dict(info0, how="post"))
+        return
+    for off in (range(1, len(blob)) if len(blob) <= 120 else sorted(rng.sample(range(1, len(blob)), 40))):
+        st, got = guard(read_skip, fa, wp, rp, blob[:off])
+        sh.count("prefix_skip_path_trailing")
+        if st == "ok":
+            sh.violation("prefix-accepted-skip", "a %d-byte prefix of a %d-byte record whose skipped field comes last returned %s" % (off, len(blob), printable(got, 200)),
+                         dict(info0, cut=off, how="post"))
+            return
     # prefixes through the skip path (cut inside the skipped field)
     blob = data + b"\x02"
     for off in (range(len(blob)) if len(blob) <= 120 else rng.sample(range(len(blob)), 40)):
